@@ -2,7 +2,8 @@
     specification [PathTable.gi] of its format, is total on built trees, deterministic, and its
     table covers the tree at every depth -- for every [is_uppercase]. *)
 From ClapModel Require Import Base.Bytes Complete.AotTree Complete.TextTree Complete.BashModel Complete.AotProofs
-  Complete.BashProofs Escape.EscapeModel Complete.PathTable Complete.PowershellModel.
+  Complete.BashProofs Escape.EscapeModel Escape.ShellLex Escape.EscapeProofs Complete.PathTable Complete.PathTableLex
+  Complete.PowershellModel.
 From Coq Require Import String.
 Open Scope N_scope.
 Open Scope list_scope.
@@ -207,3 +208,218 @@ Proof.
   intros es H. unfold case_block in H. rewrite 3!app_assoc in H. apply infix_prefix in H.
   apply infixb_complete in H. vm_compute in H. discriminate.
 Qed.
+
+(** ---- C17: whole-script structure invariance under the PowerShell lexer model ---- *)
+(** outside every literal and comment: between words, in a bare word, just after a closing quote *)
+Definition ps_outer (st : pstate) : bool := match st with PB | PW | PSQQ => true | _ => false end.
+(** characters a name may contain: everything except the single-quote characters (U+0027, U+2018..U+201B),
+    the double-quote characters (U+0022, U+201C..U+201E) and the comment sign *)
+Definition ps_plain (c : N) : bool := negb (ps_is_sq c || ps_is_dq c || (c =? 35)).
+
+Lemma ps_open st : ps_outer st = true -> fst (ps_step st 39) = PSQ.
+Proof. destruct st; intros H; try discriminate H; reflexivity. Qed.
+Lemma ps_close : ps_outer (fst (ps_step PSQ 39)) = true.
+Proof. reflexivity. Qed.
+Lemma ps_plain_outer st c : ps_outer st = true -> ps_plain c = true -> ps_outer (fst (ps_step st c)) = true.
+Proof.
+  intros Hst Hc. unfold ps_plain in Hc. rewrite negb_true_iff, !orb_false_iff in Hc.
+  destruct Hc as [[Hsq Hdq] H35].
+  assert (B : forall st0, ps_outer (fst (ps_bare st0 c)) = true).
+  { intros st0. unfold ps_bare. rewrite Hsq, Hdq, H35. cbn [andb].
+    match goal with |- context [if ?b then _ else _] => destruct b end; reflexivity. }
+  destruct st; try discriminate Hst; cbn [ps_step]; [apply B|apply B|].
+  rewrite Hsq. destruct (ps_bare PW c) as [st' e] eqn:E. cbn [fst].
+  pose proof (B PW) as B'. rewrite E in B'. exact B'.
+Qed.
+Lemma ps_plain_sq c : ps_plain c = true -> ps_step PSQ c = (PSQ, [Lit c]).
+Proof.
+  intros Hc. unfold ps_plain in Hc. rewrite negb_true_iff, !orb_false_iff in Hc.
+  destruct Hc as [[Hsq _] _]. cbn [ps_step]. now rewrite Hsq.
+Qed.
+
+Notation ps_sim := (sim ps_step ps_outer).
+Notation ps_body := (body ps_step PSQ).
+Notation ps_plainl := (plainl ps_plain).
+
+(** fixed template text: computed on the three outer states *)
+Ltac ps_fixed :=
+  apply sim_refl_of; let st := fresh "st" in let H := fresh "H" in
+  intros st H; destruct st; try discriminate H; vm_compute; reflexivity.
+Ltac norm_app := repeat (progress (rewrite <- ?app_assoc; cbn [app])).
+
+Lemma ps_sim_plain x : ps_plainl x = true -> ps_sim x x.
+Proof. apply (sim_plain ps_step ps_outer ps_plain ps_plain_outer). Qed.
+Lemma ps_sim_quote x y : ps_body x -> ps_body y -> ps_sim (39 :: x ++ [39]) (39 :: y ++ [39]).
+Proof. apply (sim_quote ps_step ps_outer PSQ 39 ps_open ps_close). Qed.
+Lemma ps_body_plain x : ps_plainl x = true -> ps_body x.
+Proof. apply (body_plain ps_step PSQ ps_plain ps_plain_sq). Qed.
+Lemma ps_sim_quoted x : ps_plainl x = true -> ps_sim (39 :: x ++ [39]) (39 :: x ++ [39]).
+Proof. intros H. apply ps_sim_quote; apply ps_body_plain, H. Qed.
+
+Lemma ps_tip_body h data : ps_plainl data = true -> ps_body (escape_help h data).
+Proof.
+  intros Hd. destruct h as [[|c x]|]; cbn [escape_help is_nil negb].
+  - apply ps_body_plain, Hd.
+  - exact (body_transparent ps_step PSQ _ _ (powershell_sq_transparent (c :: x))).
+  - apply ps_body_plain, Hd.
+Qed.
+
+Definition ps_name_mid : bytes := lit ", [CompletionResultType]::ParameterName, ".
+Definition ps_value_mid : bytes := lit ", [CompletionResultType]::ParameterValue, ".
+
+Section UpLex.
+Variable up : N -> bool.
+
+Lemma ps_short_sim n t1 t2 : ps_plainl n = true -> ps_body t1 -> ps_body t2 ->
+  ps_sim (ps_short up n t1) (ps_short up n t2).
+Proof.
+  intros Hn H1 H2.
+  set (sp := if char_is_uppercase up n then [32] else []).
+  assert (Hsp : ps_plainl sp = true) by (unfold sp; destruct (char_is_uppercase up n); reflexivity).
+  assert (E : forall tip, ps_short up n tip =
+    preamble ++ (39 :: ([45] ++ n) ++ [39]) ++ [44; 32] ++ (39 :: ([45] ++ n ++ sp) ++ [39]) ++
+    ps_name_mid ++ (39 :: tip ++ [39]) ++ [41]).
+  { intros tip. unfold ps_short, ps_name_mid. fold sp. norm_app. reflexivity. }
+  rewrite !E. apply (sim_app ps_step ps_outer); [ps_fixed|].
+  apply (sim_app ps_step ps_outer); [apply ps_sim_quoted; unfold plainl; rewrite forallb_app; cbn [forallb]; exact Hn|].
+  apply (sim_app ps_step ps_outer); [ps_fixed|].
+  apply (sim_app ps_step ps_outer);
+    [apply ps_sim_quoted; unfold plainl in *; rewrite !forallb_app, Hn, Hsp; reflexivity|].
+  apply (sim_app ps_step ps_outer); [ps_fixed|].
+  apply (sim_app ps_step ps_outer); [apply ps_sim_quote; assumption|ps_fixed].
+Qed.
+
+Lemma ps_long_sim n t1 t2 : ps_plainl n = true -> ps_body t1 -> ps_body t2 ->
+  ps_sim (ps_long n t1) (ps_long n t2).
+Proof.
+  intros Hn H1 H2.
+  assert (E : forall tip, ps_long n tip =
+    preamble ++ (39 :: ([45; 45] ++ n) ++ [39]) ++ [44; 32] ++ (39 :: ([45; 45] ++ n) ++ [39]) ++
+    ps_name_mid ++ (39 :: tip ++ [39]) ++ [41]).
+  { intros tip. unfold ps_long, ps_name_mid. norm_app. reflexivity. }
+  rewrite !E. apply (sim_app ps_step ps_outer); [ps_fixed|].
+  apply (sim_app ps_step ps_outer); [apply ps_sim_quoted; unfold plainl; rewrite forallb_app; cbn [forallb]; exact Hn|].
+  apply (sim_app ps_step ps_outer); [ps_fixed|].
+  apply (sim_app ps_step ps_outer); [apply ps_sim_quoted; unfold plainl; rewrite forallb_app; cbn [forallb]; exact Hn|].
+  apply (sim_app ps_step ps_outer); [ps_fixed|].
+  apply (sim_app ps_step ps_outer); [apply ps_sim_quote; assumption|ps_fixed].
+Qed.
+
+Lemma ps_sub_sim n t1 t2 : ps_plainl n = true -> ps_body t1 -> ps_body t2 ->
+  ps_sim (ps_sub n t1) (ps_sub n t2).
+Proof.
+  intros Hn H1 H2.
+  assert (E : forall tip, ps_sub n tip =
+    preamble ++ (39 :: n ++ [39]) ++ [44; 32] ++ (39 :: n ++ [39]) ++
+    ps_value_mid ++ (39 :: tip ++ [39]) ++ [41]).
+  { intros tip. unfold ps_sub, ps_value_mid. norm_app. reflexivity. }
+  rewrite !E. apply (sim_app ps_step ps_outer); [ps_fixed|].
+  apply (sim_app ps_step ps_outer); [apply ps_sim_quoted, Hn|].
+  apply (sim_app ps_step ps_outer); [ps_fixed|].
+  apply (sim_app ps_step ps_outer); [apply ps_sim_quoted, Hn|].
+  apply (sim_app ps_step ps_outer); [ps_fixed|].
+  apply (sim_app ps_step ps_outer); [apply ps_sim_quote; assumption|ps_fixed].
+Qed.
+
+Definition ps_block_open : bytes := nl ++ lit "        ".
+Definition ps_block_mid : bytes := lit " {".
+Definition ps_block_close : bytes := nl ++ lit "            break" ++ nl ++ lit "        }".
+
+Lemma ps_block_sim k x y : ps_plainl k = true -> ps_sim x y -> ps_sim (case_block k x) (case_block k y).
+Proof.
+  intros Hk Hxy.
+  assert (E : forall z, case_block k z = ps_block_open ++ (39 :: k ++ [39]) ++ ps_block_mid ++ z ++ ps_block_close).
+  { intros z. unfold case_block, ps_block_open, ps_block_mid, ps_block_close. norm_app. reflexivity. }
+  rewrite !E. apply (sim_app ps_step ps_outer); [ps_fixed|].
+  apply (sim_app ps_step ps_outer); [apply ps_sim_quoted, Hk|].
+  apply (sim_app ps_step ps_outer); [ps_fixed|].
+  apply (sim_app ps_step ps_outer); [exact Hxy|ps_fixed].
+Qed.
+
+(** the table: ANY two assignments of description texts *)
+Theorem powershell_table_sim c t1 t2 prev : cmd_plain ps_plain c = true -> ps_plainl prev = true ->
+  ps_sim (gi (ps_fmt up) c t1 prev) (gi (ps_fmt up) c t2 prev).
+Proof.
+  intros Hc Hp.
+  exact (sim_gi ps_step ps_outer PSQ ps_plain (ps_fmt up) eq_refl
+           ps_tip_body ps_short_sim ps_long_sim ps_sub_sim ps_block_sim c Hc t1 t2 prev Hp).
+Qed.
+
+(** the whole script *)
+Lemma ps_render_split bin z :
+  render bin z = (head1 ++ (39 :: bin ++ [39]) ++ head2 ++ (39 :: bin ++ [39]) ++ head3 ++ z) ++ tail1.
+Proof. unfold render. norm_app. reflexivity. Qed.
+
+Lemma ps_render_body_sim bin x y : ps_plainl bin = true -> ps_sim x y ->
+  ps_sim (head1 ++ (39 :: bin ++ [39]) ++ head2 ++ (39 :: bin ++ [39]) ++ head3 ++ x)
+         (head1 ++ (39 :: bin ++ [39]) ++ head2 ++ (39 :: bin ++ [39]) ++ head3 ++ y).
+Proof.
+  intros Hb Hxy. apply (sim_app ps_step ps_outer); [ps_fixed|].
+  apply (sim_app ps_step ps_outer); [apply ps_sim_quoted, Hb|].
+  apply (sim_app ps_step ps_outer); [ps_fixed|].
+  apply (sim_app ps_step ps_outer); [apply ps_sim_quoted, Hb|].
+  apply (sim_app ps_step ps_outer); [ps_fixed|exact Hxy].
+Qed.
+
+Lemma ps_render_sim bin x y : ps_plainl bin = true -> ps_sim x y -> ps_sim (render bin x) (render bin y).
+Proof.
+  intros Hb Hxy. rewrite !ps_render_split.
+  apply (sim_app ps_step ps_outer); [apply ps_render_body_sim; assumption|ps_fixed].
+Qed.
+
+Lemma ps_cmd_plain_bin c bin : cmd_plain ps_plain c = true -> c_bin c = Some bin -> ps_plainl bin = true.
+Proof.
+  intros Hc Hb. rewrite cmd_plain_unfold, !andb_true_iff in Hc. destruct Hc as [[_ Hbin] _].
+  rewrite Hb in Hbin. exact Hbin.
+Qed.
+
+(** C17, PowerShell, whole script: for a built tree whose names contain no quote character of the
+    PowerShell tokenizer and no comment sign, the scripts generated for ANY two assignments of description
+    texts have the same token skeleton and end in the same lexer state *)
+Theorem powershell_script_structure c t1 t2 s1 s2 :
+  bins_built c -> cmd_plain ps_plain c = true ->
+  generate up c t1 = Some s1 -> generate up c t2 = Some s2 ->
+  skeleton (events ps_step PB s1) = skeleton (events ps_step PB s2) /\
+  final ps_step PB s1 = final ps_step PB s2.
+Proof.
+  intros Hb Hc G1 G2.
+  destruct (c_bin c) as [bin|] eqn:Ebin; [|unfold generate in G1; rewrite Ebin in G1; discriminate].
+  rewrite (generate_spec up c t1 bin Ebin Hb) in G1. rewrite (generate_spec up c t2 bin Ebin Hb) in G2.
+  inversion G1; inversion G2; subst s1 s2; clear G1 G2.
+  pose proof (ps_cmd_plain_bin c bin Hc Ebin) as Hbin.
+  destruct (ps_render_sim bin _ _ Hbin (powershell_table_sim c t1 t2 [] Hc eq_refl) PB eq_refl) as (_ & F & K).
+  split; assumption.
+Qed.
+
+(** every text is literal payload: the skeleton is that of the script generated with no description
+    text at all, and every literal is closed at the end of the script *)
+Theorem powershell_text_is_payload c t s s0 :
+  bins_built c -> cmd_plain ps_plain c = true ->
+  generate up c t = Some s -> generate up c tt_none = Some s0 ->
+  skeleton (events ps_step PB s) = skeleton (events ps_step PB s0) /\ final ps_step PB s = PB.
+Proof.
+  intros Hb Hc G G0. destruct (powershell_script_structure c t tt_none s s0 Hb Hc G G0) as [K F].
+  split; [exact K|].
+  destruct (c_bin c) as [bin|] eqn:Ebin; [|unfold generate in G; rewrite Ebin in G; discriminate].
+  rewrite (generate_spec up c t bin Ebin Hb) in G. inversion G; subst s; clear G.
+  pose proof (ps_cmd_plain_bin c bin Hc Ebin) as Hbin.
+  rewrite ps_render_split, final_app.
+  pose proof (proj1 (ps_render_body_sim bin _ _ Hbin (powershell_table_sim c t t [] Hc eq_refl) PB eq_refl)) as O.
+  revert O.
+  generalize (final ps_step PB (head1 ++ (39 :: bin ++ [39]) ++ head2 ++ (39 :: bin ++ [39]) ++ head3 ++ gi (ps_fmt up) c t [])).
+  intros st O. destruct st; try discriminate O; reflexivity.
+Qed.
+
+(** the same for [clap_complete::aot::generate] as a whole *)
+Theorem powershell_generate_structure c bin t1 t2 b s1 s2 :
+  build (set_bin_name c bin) = Some b -> cmd_plain ps_plain b = true ->
+  generate_powershell up c t1 bin = Some s1 -> generate_powershell up c t2 bin = Some s2 ->
+  skeleton (events ps_step PB s1) = skeleton (events ps_step PB s2) /\
+  final ps_step PB s1 = final ps_step PB s2.
+Proof.
+  intros Hb Hp G1 G2. unfold generate_powershell in G1, G2. rewrite Hb in G1, G2.
+  destruct (tbuild (set_bin_name c bin) t1) as [tb1|]; [|discriminate].
+  destruct (tbuild (set_bin_name c bin) t2) as [tb2|]; [|discriminate].
+  exact (powershell_script_structure b tb1 tb2 s1 s2 (build_bins_built _ _ Hb) Hp G1 G2).
+Qed.
+End UpLex.
